@@ -376,6 +376,22 @@ Section Upstream.
     if compatible static_ok a b q then [wms_get_map (combined a) q]
     else [wms_get_map a q; wms_get_map b q].
 
+  (* service.wms.combined_layers for any number of layers: adjacent layers are merged into the current one as long
+     as they are compatible; every resulting layer is kept together with the sources it stands for.
+     rest: the following sources, each with the static condition towards its predecessor *)
+  Fixpoint combine_from (cur : wms_source) (members : list wms_source) (rest : list (bool * wms_source)) (q : query)
+    : list (wms_source * list wms_source) :=
+    match rest with
+    | [] => [(cur, members)]
+    | (ok, n) :: r =>
+      if compatible ok cur n q then combine_from (combined cur) (members ++ [n]) r q
+      else (cur, members) :: combine_from n [n] r q
+    end.
+  Definition combine_layers (first : wms_source) (rest : list (bool * wms_source)) (q : query) :=
+    combine_from first [first] rest q.
+  Definition render_list (first : wms_source) (rest : list (bool * wms_source)) (q : query) : list outcome :=
+    map (fun e => wms_get_map (fst e) q) (combine_layers first rest q).
+
   (* TiledSource.get_map *)
   Definition tiled_get_map (ts : tile_source) (q : query) : tile_outcome :=
     let g := t_grid ts in
@@ -444,6 +460,13 @@ Definition tile_obs_eqb (o : tile_outcome) (x : tile_obs) : bool :=
   | TRequest c, TOTile c' => coord_eqb c c'
   | TErr e, TOErr e' => e =? e'
   | _, _ => false
+  end.
+
+Fixpoint outs_eqb (ts : list params) (fixed : list (Z * Z)) (o : list outcome) (x : list wms_obs) : bool :=
+  match ts, o, x with
+  | [], [], [] => true
+  | t :: ts', o1 :: o', x1 :: x' => wms_obs_eqb t fixed o1 x1 && outs_eqb ts' fixed o' x'
+  | _, _, _ => false
   end.
 
 (* lookup table used as T in the correspondence: ((code of source SRS, code of target SRS), bbox) -> result *)
